@@ -50,6 +50,7 @@ class Summary:
         self.ret: Set[Atom] = set()
         self.selffields: Dict[str, Set[Atom]] = collections.defaultdict(set)
         self.fresh: Dict[tuple, Dict[str, Set[Atom]]] = {}
+        self.fresh_when: Dict[tuple, Set[int]] = collections.defaultdict(set)  # (root, field, atom) -> CFG nodes of the stores (-1: at creation)
         self.stores: Set[tuple] = set()          # (container atom, value atom, lineno)
         self.unknown_muts: Set[tuple] = set()
 
@@ -138,6 +139,29 @@ class _Analyzer:
         self.memo: Dict[tuple, Set[Atom]] = {}
         self.sites: Dict[int, tuple] = {}
         self.compute_facts()
+        self._after: Dict[int, Set[int]] = {}
+        self._local_prefix = self.f.qn + "@"
+
+    def after(self, n: int) -> Set[int]:
+        """CFG nodes that can execute after node n"""
+        if n not in self._after:
+            out: Set[int] = set()
+            for m, _ in self.g.succ[n]:
+                out |= C.reachable_from(self.g, m)
+            self._after[n] = out
+        return self._after[n]
+
+    def _put(self, root: tuple, fld: str, atoms: Set[Atom], at: int = -1):
+        d = self.s.fresh.setdefault(root, {})
+        cur = d.setdefault(fld, set())
+        if not atoms <= cur:
+            cur |= atoms
+            self.changed = True
+        for a in atoms:
+            w = self.s.fresh_when[(root, fld, a)]
+            if at not in w:
+                w.add(at)
+                self.changed = True
 
     # ------------------------------------------------------------------ isinstance facts (path-sensitivity lite)
     def _facts_of_test(self, test: ast.AST, positive: bool) -> List[Tuple[str, str, bool]]:
@@ -218,15 +242,12 @@ class _Analyzer:
 
     def newfresh(self, node: ast.AST, fields: Optional[Dict[str, Set[Atom]]] = None) -> Set[Atom]:
         root = self.fresh_root(node)
-        d = self.s.fresh.setdefault(root, {})
+        self.s.fresh.setdefault(root, {})
         for k, v in (fields or {}).items():
-            cur = d.setdefault(k, set())
-            if not v <= cur:
-                cur |= v
-                self.changed = True
+            self._put(root, k, v, -1)
         return {(root, ())}
 
-    def field(self, atoms: Set[Atom], f: str) -> Set[Atom]:
+    def field(self, atoms: Set[Atom], f: str, at: Optional[int] = None) -> Set[Atom]:
         out: Set[Atom] = set()
         if f.startswith("+"):
             # positive type fact: drop atoms known not to be of that class; no path extension
@@ -243,7 +264,14 @@ class _Analyzer:
             if r[0] == "fresh" and p == ():
                 fm = self.s.fresh.get(r, {})
                 if f in fm:
-                    out |= fm[f]
+                    if at is not None and r[1].startswith(self._local_prefix):
+                        # flow-sensitive contents of containers built in this function: a store is visible only downstream
+                        for a in fm[f]:
+                            w = self.s.fresh_when.get((r, f, a))
+                            if not w or -1 in w or any(at in self.after(n) for n in w):
+                                out.add(a)
+                    else:
+                        out |= fm[f]
                 else:
                     out.add((r, (f,)))
             else:
@@ -303,13 +331,13 @@ class _Analyzer:
                 m = self.repo.find_method(bt[1], e.attr)
                 if m is not None:
                     return self.apply_summary(m, {m.params[0]: base}, e, at, is_ctor=False)
-            return self.apply_facts(e, self.field(base, e.attr), at)
+            return self.apply_facts(e, self.field(base, e.attr, at), at)
         if isinstance(e, ast.Subscript):
             base = self.val(e.value, at, seen)
             if isinstance(e.slice, ast.Slice):
                 return self.newfresh(e, {"[]": self.field(base, "[]")})
             self.val(e.slice, at, seen)
-            return self.field(base, "[]")
+            return self.field(base, "[]", at)
         if isinstance(e, ast.Starred):
             return self.val(e.value, at, seen)
         if isinstance(e, (ast.List, ast.Tuple, ast.Set)):
@@ -344,7 +372,7 @@ class _Analyzer:
         if cb == "lambda":
             return set()
         if cb is not None:
-            base = self.field(self.val(cb.iter, at, seen), "[]")
+            base = self.field(self.val(cb.iter, at, seen), "[]", at)
             if not isinstance(cb.target, ast.Name):
                 base = base | self.field(base, "[]")
             return base
@@ -390,7 +418,7 @@ class _Analyzer:
                     if (nm, d0) not in s2:
                         out |= self.name(ast.copy_location(ast.Name(id=nm, ctx=ast.Load()), st), d, s2) if False else set()
             elif isinstance(st, ast.For):
-                base = self.field(self.val(st.iter, d, s2), "[]")
+                base = self.field(self.val(st.iter, d, s2), "[]", d)
                 out |= base if isinstance(st.target, ast.Name) else (base | self.field(base, "[]"))
             elif isinstance(st, (ast.With, ast.ExceptHandler, ast.Import, ast.ImportFrom)):
                 pass
@@ -449,14 +477,14 @@ class _Analyzer:
             if cat in ("container", "str", "builtin", "unknown") and not (cat == "unknown" and f.attr not in CONTAINER_MUTATORS
                                                                           and f.attr not in ("values", "items", "keys", "get", "copy")):
                 if f.attr in ("values", "items", "keys"):
-                    return self.newfresh(call, {"[]": self.field(recv, "[]")})
+                    return self.newfresh(call, {"[]": self.field(recv, "[]", at)})
                 if f.attr in ("get", "pop", "setdefault", "popleft", "popitem"):
-                    out = self.field(recv, "[]")
+                    out = self.field(recv, "[]", at)
                     for a in args[1:]:
                         out |= a
                     if f.attr == "setdefault" and len(args) > 1:
                         self.mutate(recv, call)
-                        self.store_elem(recv, args[1], call)
+                        self.store_elem(recv, args[1], call, at)
                     if f.attr in ("pop", "popleft", "popitem"):
                         self.mutate(recv, call)
                     return out
@@ -468,7 +496,7 @@ class _Analyzer:
                 if f.attr in CONTAINER_MUTATORS:
                     self.mutate(recv, call)
                     for a in args:
-                        self.store_elem(recv, a if f.attr in ELEMENT_ADDERS else self.field(a, "[]"), call)
+                        self.store_elem(recv, a if f.attr in ELEMENT_ADDERS else self.field(a, "[]", at), call, at)
                     return set()
                 if f.attr in ("split", "join", "format", "lower", "strip", "replace"):
                     return set()
@@ -549,13 +577,9 @@ class _Analyzer:
                 elif r[0] == "fresh":
                     if r in cs.fresh and r not in importing:
                         importing.add(r)
-                        d = self.s.fresh.setdefault(r, {})
+                        self.s.fresh.setdefault(r, {})
                         for k2, v2 in list(cs.fresh[r].items()):
-                            sv = subst(set(v2))
-                            cur = d.setdefault(k2, set())
-                            if not sv <= cur:
-                                cur |= sv
-                                self.changed = True
+                            self._put(r, k2, subst(set(v2)), -1)
                     cur = {(r, ())}
                     for step in p:
                         cur = self.field(cur, step)
@@ -571,18 +595,14 @@ class _Analyzer:
         for (cont, value, ln) in list(cs.stores):
             for ca in subst({cont}):
                 for va in subst({value}):
-                    self.record_store(ca, va, node)
+                    self.record_store(ca, va, node, at)
         if is_ctor:
             selfatoms = bind[callee.params[0]]
             sroot = next(iter(selfatoms))[0]
-            d = self.s.fresh.setdefault(sroot, {})
+            self.s.fresh.setdefault(sroot, {})
             # fields assigned by the constructor chain (own __init__ and super().__init__)
             for fld, atoms in list(cs.selffields.items()):
-                sv = subst(set(atoms))
-                cur = d.setdefault(fld, set())
-                if not sv <= cur:
-                    cur |= sv
-                    self.changed = True
+                self._put(sroot, fld, subst(set(atoms)), -1)
             return selfatoms
         if callee.name == "__init__" and self.f.name == "__init__":
             # super().__init__(...): the fields it assigns are fields of the object under construction
@@ -597,22 +617,18 @@ class _Analyzer:
         return subst(set(cs.ret))
 
     # ------------------------------------------------------------------ recording
-    def store_elem(self, recv: Set[Atom], atoms: Set[Atom], node: ast.AST):
+    def store_elem(self, recv: Set[Atom], atoms: Set[Atom], node: ast.AST, at: int = -1):
         for r, p in recv:
             if r[0] == "fresh" and p == ():
-                d = self.s.fresh.setdefault(r, {})
-                cur = d.setdefault("[]", set())
-                if not atoms <= cur:
-                    cur |= atoms
-                    self.changed = True
+                self._put(r, "[]", atoms, at)
             elif r[0] in ("param", "self", "global"):
                 for va in atoms:
-                    self.record_store((r, p), va, node)
+                    self.record_store((r, p), va, node, at)
 
-    def record_store(self, cont: Atom, value: Atom, node: ast.AST):
+    def record_store(self, cont: Atom, value: Atom, node: ast.AST, at: int = -1):
         if cont[0][0] in ("fresh", "unknown"):
             if cont[0][0] == "fresh" and cont[1] == ():
-                self.store_elem({cont}, {value}, node)
+                self.store_elem({cont}, {value}, node, at)
             return
         if value[0][0] not in ("param", "self") or cont[0][0] not in ("param", "self"):
             return
@@ -732,17 +748,13 @@ class _Analyzer:
         if isinstance(t, ast.Subscript):
             base = self.val(t.value, n)
             self.mutate(base, st)
-            self.store_elem(base, v, st)
+            self.store_elem(base, v, st, n)
             return
         if isinstance(t, ast.Attribute):
             base = self.val(t.value, n)
             for r, p in base:
                 if r[0] == "fresh" and p == ():
-                    d = self.s.fresh.setdefault(r, {})
-                    cur = d.setdefault(t.attr, set())
-                    if not v <= cur:
-                        cur |= v
-                        self.changed = True
+                    self._put(r, t.attr, v, n)
                 elif r[0] == "self" and p == ():
                     cur = self.s.selffields[t.attr]
                     if not v <= cur:
@@ -752,7 +764,7 @@ class _Analyzer:
                 else:
                     self.record_mut((r, p), st, kind="attr:" + t.attr)
                     for va in v:
-                        self.record_store((r, trunc(p + (t.attr,))), va, st)
+                        self.record_store((r, trunc(p + (t.attr,))), va, st, n)
 
 
 _cache: Dict[int, Effects] = {}
